@@ -1,4 +1,252 @@
-//! C07 operations (filled in below).
-pub fn dispatch(_op: &str, _args: &[String]) -> bool {
-    false
+//! C07 operations (written SVG is well-formed, self-contained and re-parsable).
+//!   c07-write  payload `opts\twopts\tdoc`
+//!       wopts: `-` or `key=value;..` with prefix=<hex of utf-8>, pt=0|1 (preserve_text), sq=0|1 (single quotes),
+//!              indent=none|tabs|<n>, aindent=none|tabs|<n>, cp=<n>, tp=<n> (coordinate / transform precision)
+//!       -> {"len":..,"xml":null|"<error>","root":[tag,ns],"skeleton":[tag,{attr:value..},[kids..]],
+//!           "bad_numbers":[[tag,attr,value]..],"reparse":null|"<error>","size_a":[..],"size_b":[..],
+//!           "dump":<dump of the original tree>}            or {"error":..} when the document itself does not parse
+use crate::dump::{dump_tree, esc};
+use crate::util::*;
+
+pub fn dispatch(op: &str, _args: &[String]) -> bool {
+    match op {
+        "c07-write" => run_batch(op_write),
+        _ => return false,
+    }
+    true
+}
+
+pub fn parse_wopts(spec: &str) -> usvg::WriteOptions {
+    let mut o = usvg::WriteOptions::default();
+    for kv in spec.split(';') {
+        let kv = kv.trim();
+        if kv.is_empty() || kv == "-" {
+            continue;
+        }
+        let (k, v) = kv.split_once('=').unwrap_or((kv, ""));
+        let ind = |v: &str| match v {
+            "none" => usvg::Indent::None,
+            "tabs" => usvg::Indent::Tabs,
+            n => usvg::Indent::Spaces(n.parse().unwrap_or(4)),
+        };
+        match k {
+            "prefix" => o.id_prefix = Some(String::from_utf8_lossy(&unhex(v)).to_string()),
+            "pt" => o.preserve_text = v == "1",
+            "sq" => o.use_single_quote = v == "1",
+            "indent" => o.indent = ind(v),
+            "aindent" => o.attributes_indent = ind(v),
+            "cp" => o.coordinates_precision = v.parse().unwrap_or(8),
+            "tp" => o.transforms_precision = v.parse().unwrap_or(8),
+            _ => {}
+        }
+    }
+    o
+}
+
+const KEEP: &[&str] = &[
+    "id", "clip-path", "mask", "fill", "stroke", "filter", "in", "in2", "result", "font-size", "text-decoration",
+];
+
+/// attributes whose value is a number or a list of numbers
+const NUMERIC: &[&str] = &[
+    "width", "height", "x", "y", "x1", "y1", "x2", "y2", "cx", "cy", "r", "fx", "fy", "offset", "stop-opacity",
+    "opacity", "fill-opacity", "stroke-opacity", "stroke-width", "stroke-miterlimit", "stroke-dashoffset",
+    "stroke-dasharray", "stdDeviation", "dx", "dy", "flood-opacity", "k1", "k2", "k3", "k4", "tableValues", "slope",
+    "intercept", "amplitude", "exponent", "order", "kernelMatrix", "divisor", "bias", "targetX", "targetY", "radius",
+    "scale", "baseFrequency", "numOctaves", "seed", "surfaceScale", "diffuseConstant", "specularConstant",
+    "specularExponent", "azimuth", "elevation", "z", "pointsAtX", "pointsAtY", "pointsAtZ", "limitingConeAngle",
+    "font-size", "font-weight", "letter-spacing", "word-spacing", "textLength", "startOffset", "rotate",
+];
+
+fn plain_decimal(tok: &str) -> bool {
+    let t = tok.strip_prefix('-').unwrap_or(tok);
+    let (a, b) = match t.split_once('.') {
+        Some((a, b)) => (a, Some(b)),
+        None => (t, None),
+    };
+    if a.is_empty() || !a.bytes().all(|c| c.is_ascii_digit()) {
+        return false;
+    }
+    match b {
+        Some(b) => !b.is_empty() && b.bytes().all(|c| c.is_ascii_digit()),
+        None => true,
+    }
+}
+
+fn numbers_ok(tag: &str, name: &str, value: &str) -> bool {
+    if name == "d" {
+        return value
+            .split(' ')
+            .filter(|t| !t.is_empty())
+            .all(|t| matches!(t, "M" | "L" | "Q" | "C" | "Z") || plain_decimal(t));
+    }
+    if name == "transform" || name == "gradientTransform" || name == "patternTransform" {
+        return match value.strip_prefix("matrix(").and_then(|v| v.strip_suffix(')')) {
+            Some(inner) => {
+                let v: Vec<&str> = inner.split(' ').collect();
+                v.len() == 6 && v.iter().all(|t| plain_decimal(t))
+            }
+            None => false,
+        };
+    }
+    if name == "values" {
+        // feColorMatrix: numbers for matrix / saturate / hueRotate
+        return value.split(' ').filter(|t| !t.is_empty()).all(plain_decimal);
+    }
+    if name == "baseline-shift" {
+        return matches!(value, "sub" | "super") || plain_decimal(value);
+    }
+    if name == "offset" && tag == "stop" {
+        return plain_decimal(value);
+    }
+    if NUMERIC.contains(&name) {
+        return value.split(' ').filter(|t| !t.is_empty()).all(plain_decimal);
+    }
+    true
+}
+
+fn skel(n: roxmltree::Node, o: &mut String, bad: &mut Vec<(String, String, String)>) {
+    let tag = n.tag_name().name();
+    o.push('[');
+    o.push_str(&esc(tag));
+    o.push_str(",{");
+    let mut first = true;
+    for a in n.attributes() {
+        let name = a.name();
+        let is_xlink = a.namespace() == Some("http://www.w3.org/1999/xlink");
+        let full = if is_xlink { format!("xlink:{}", name) } else { name.to_string() };
+        if !numbers_ok(tag, &full, a.value()) && bad.len() < 20 {
+            let mut v = a.value().to_string();
+            if v.len() > 80 {
+                v = v.chars().take(80).collect();
+            }
+            bad.push((tag.to_string(), full.clone(), v));
+        }
+        let keep = KEEP.contains(&full.as_str()) || full == "xlink:href";
+        if !keep {
+            continue;
+        }
+        if !first {
+            o.push(',');
+        }
+        first = false;
+        o.push_str(&esc(&full));
+        o.push(':');
+        if full == "xlink:href" && !a.value().starts_with('#') {
+            let head: String = a.value().chars().take(5).collect();
+            o.push_str(&esc(&head));
+        } else {
+            o.push_str(&esc(a.value()));
+        }
+    }
+    o.push_str("},[");
+    let mut firstk = true;
+    for c in n.children().filter(|c| c.is_element()) {
+        if !firstk {
+            o.push(',');
+        }
+        firstk = false;
+        skel(c, o, bad);
+    }
+    o.push_str("]]");
+}
+
+/// (groups, paths, images, texts) of the render tree; with `flatten` a text counts as its flattened group
+pub fn tree_size(g: &usvg::Group, flatten: bool, acc: &mut [usize; 4]) {
+    for n in g.children() {
+        match n {
+            usvg::Node::Group(g2) => {
+                acc[0] += 1;
+                tree_size(g2, flatten, acc);
+            }
+            usvg::Node::Path(_) => acc[1] += 1,
+            usvg::Node::Image(_) => acc[2] += 1,
+            usvg::Node::Text(t) => {
+                if flatten {
+                    acc[0] += 1;
+                    tree_size(t.flattened(), flatten, acc);
+                } else {
+                    acc[3] += 1;
+                }
+            }
+        }
+    }
+}
+
+fn sizes(t: &usvg::Tree, flatten: bool) -> String {
+    let mut a = [0usize; 4];
+    tree_size(t.root(), flatten, &mut a);
+    format!(
+        "[{},{},{},{},{},{},{},{},{},{}]",
+        a[0], a[1], a[2], a[3],
+        t.linear_gradients().len(), t.radial_gradients().len(), t.patterns().len(),
+        t.clip_paths().len(), t.masks().len(), t.filters().len()
+    )
+}
+
+fn op_write(payload: &str) -> String {
+    let f: Vec<&str> = payload.splitn(3, '\t').collect();
+    if f.len() < 3 {
+        return "{\"error\":\"bad payload\"}".to_string();
+    }
+    let tree = match parse_doc(f[0], f[2]) {
+        Ok(t) => t,
+        Err(e) => return format!("{{\"error\":{}}}", esc(&e)),
+    };
+    let wo = parse_wopts(f[1]);
+    let text = tree.to_string(&wo);
+    let mut o = String::with_capacity(text.len() / 4 + 1024);
+    o.push_str(&format!("{{\"len\":{}", text.len()));
+    let mut bad = Vec::new();
+    match roxmltree::Document::parse(&text) {
+        Ok(doc) => {
+            let r = doc.root_element();
+            o.push_str(",\"xml\":null,\"root\":[");
+            o.push_str(&esc(r.tag_name().name()));
+            o.push(',');
+            o.push_str(&esc(r.tag_name().namespace().unwrap_or("")));
+            o.push_str("],\"xlink_declared\":");
+            let decl = r.namespaces().any(|ns| ns.name() == Some("xlink") && ns.uri() == "http://www.w3.org/1999/xlink");
+            o.push_str(if decl { "true" } else { "false" });
+            o.push_str(",\"skeleton\":");
+            skel(r, &mut o, &mut bad);
+        }
+        Err(e) => {
+            o.push_str(",\"xml\":");
+            o.push_str(&esc(&format!("{}", e)));
+        }
+    }
+    o.push_str(",\"bad_numbers\":[");
+    for (i, (t, a, v)) in bad.iter().enumerate() {
+        if i != 0 {
+            o.push(',');
+        }
+        o.push_str(&format!("[{},{},{}]", esc(t), esc(a), esc(v)));
+    }
+    o.push(']');
+    // re-parse with the same options (resources dir of the source so that nothing external is needed: images are inlined)
+    let mut opt = make_options(f[0]);
+    if let Some(p) = f[2].strip_prefix('@') {
+        opt.resources_dir = std::path::Path::new(p).parent().map(|x| x.to_owned());
+    }
+    match usvg::Tree::from_str(&text, &opt) {
+        Ok(t2) => {
+            o.push_str(",\"reparse\":null,\"size_a\":");
+            o.push_str(&sizes(&tree, !wo.preserve_text));
+            o.push_str(",\"size_b\":");
+            o.push_str(&sizes(&t2, !wo.preserve_text));
+        }
+        Err(e) => {
+            o.push_str(",\"reparse\":");
+            o.push_str(&esc(&format!("{}", e)));
+        }
+    }
+    o.push_str(",\"dump\":");
+    o.push_str(&dump_tree(&tree));
+    if text.len() < 3000 {
+        o.push_str(",\"text\":");
+        o.push_str(&esc(&text));
+    }
+    o.push('}');
+    o
 }
